@@ -246,6 +246,25 @@ CLAIMS['C17'].update(
 CLAIMS['C18'].update(
     text=CLAIMS['C18']['text'] + ' Reference locals bound through a conditional on pointer equality (`(this == &b) ? b : a`) are resolved under each aliasing pattern; a reference the analysis cannot resolve stops the check (no silent private-object assumption).')
 
+# ---- session 4, round 10 rules
+CLAIMS['C05'].update(
+    technique=CLAIMS['C05']['technique'] + '; definite-output rule on the CFG of every out-of-place point operation',
+    text=CLAIMS['C05']['text'] + ' Every out-of-place operation of the point classes writes its result on every path (or the result is the argument itself).')
+CLAIMS['C08'].update(
+    text=CLAIMS['C08']['text'] + ' The C entry points (pairing, pairing_sum, prepared_pairing, g2prepared_prepare) hand all their arguments to one call of the C++ routine decided here.')
+CLAIMS['C09'].update(
+    technique=CLAIMS['C09']['technique'] + '; truth table of the sign predicate by abstract evaluation (three classes per base-field coordinate)',
+    text=CLAIMS['C09']['text'].replace('the compressed encoder sets the sign flag by the same predicate (resolved comparison, operand roles, constant) the decoder uses to select the root;', 'the predicate by which the compressed encoder sets the sign flag and the one by which the decoder selects the root are both `y is the larger of (y, -y)` on every class of input (zero / smaller / larger per coordinate; helpers are inlined; a predicate that cannot be evaluated falls back to: both sides written identically);'))
+CLAIMS['C10'].update(
+    technique=CLAIMS['C10']['technique'] + '; truth table of the root-selection predicate (shared with C09)',
+    text=CLAIMS['C10']['text'].replace('Determinism of hash-to-curve', 'get_point_from_x (which hash-to-curve takes its y from) rejects non-residues on checked paths and selects the root by `y is the larger of (y, -y)` on every class of input. Determinism of hash-to-curve'))
+for _p in ('C11', 'C12'):
+    CLAIMS[_p].update(
+        text=CLAIMS[_p]['text'] + ' A delegation component of a derived key is written only after omitAllFromKeysUnlessPresent was tested on every path (R-HIDDEN/all).')
+CLAIMS['C20'].update(
+    technique=CLAIMS['C20']['technique'] + '; const-input rule (no mutable data member, no const-removing cast that is written through)',
+    text=CLAIMS['C20']['text'] + ' No library record has a mutable data member and no cast removes const from a pointee except to read through it: an object received as a const input cannot carry state.')
+
 NA = {
 }
 
